@@ -132,7 +132,7 @@ def _hoelder_pair(r, n, m):
 
 
 def _random_config(r, viol, stats, counts):
-    n, m = oc.gen_nm(r, 50, 1, ns=(2, 3, 4, 5))
+    n, m = oc.gen_nm(r, 50, 1, ns=(2, 3, 4, 5, 6, 7))
     lo, hi = oc.gen_box(r, n)
     ev = oc.mk_ev(lo, hi, n, m)
     g = oc.Grid(lo, hi, m)
@@ -188,7 +188,7 @@ def run(tier, r):
     viol, samples = [], []
     stats = {"exhaustive_configs": [], "dims": {}, "nm_hist": {}, "max_hoelder_ratio": 0.0}
     counts = {"adjacency": 0, "nesting": 0, "hoelder": 0}
-    cfgs = sorted([(n, m) for n in (2, 3, 4, 5) for m in range(1, 26) if n * m <= lim], key=lambda c: c[0] * c[1])
+    cfgs = sorted([(n, m) for n in (2, 3, 4, 5, 6, 7) for m in range(1, 26) if n * m <= lim], key=lambda c: c[0] * c[1])
     for n, m in cfgs:
         if bud.over(0.8):
             stats.setdefault("exhaustive_skipped_for_time", []).append([n, m])
